@@ -38,9 +38,43 @@ def reset_world():
     """Bring every process-global cache of the library to its cold state, so a run is a pure function of its case."""
     from dissect.cstruct.types import packed, structure
 
-    packed._struct.cache_clear()
-    for name in ("_make_structure__init__", "_make_union__init__", "_make__eq__", "_make__bool__", "_make__hash__"):
-        getattr(structure, name).cache_clear()
+    cache_knobs(None)
+    for mod, name in [(packed, "_struct")] + [(structure, n) for n in ("_make_structure__init__", "_make_union__init__", "_make__eq__",
+                                                                        "_make__bool__", "_make__hash__")]:
+        clear = getattr(getattr(mod, name, None), "cache_clear", None)
+        if clear is not None:
+            clear()
+
+
+_KNOBS = None
+
+
+def cache_knobs(size):
+    """Tuning-knob randomisation (cache capacities): every module-level functools.lru_cache of the library is re-created
+    with capacity `size`, and every module-level integer constant whose name contains CACHE is set to `size`; None
+    restores the shipped values. Caches are transparent by definition, so any capacity must behave the same - a capacity
+    too large for the eviction path to run is the classic blind spot. Nothing in /repo is edited (module attributes only)."""
+    import functools
+
+    global _KNOBS
+    if _KNOBS is None:
+        _KNOBS = []
+        for mname, mod in sorted(sys.modules.items()):
+            if mod is None or not mname.startswith("dissect.cstruct"):
+                continue
+            for k, v in sorted(vars(mod).items(), key=lambda kv: kv[0]):
+                if isinstance(v, functools._lru_cache_wrapper):
+                    _KNOBS.append((mod, k, v, "lru"))
+                elif isinstance(v, int) and not isinstance(v, bool) and "CACHE" in k.upper() and v > 8:
+                    _KNOBS.append((mod, k, v, "int"))
+    for mod, k, v, kind in _KNOBS:
+        if size is None:
+            setattr(mod, k, v)
+        elif kind == "lru":
+            setattr(mod, k, functools.lru_cache(size)(v.__wrapped__))
+        else:
+            setattr(mod, k, size)
+    return len(_KNOBS)
 
 
 def h8(*parts) -> bytes:
